@@ -308,13 +308,24 @@ bind closures ran (the structure existed only between call and return: finding F
 def holdsC05 (h : History) (tr : ImplTrace) : Verdict := Id.run do
   let mut sh := Shadow.init h
   let mut idx := 0
+  -- observer ↦ the node it watches, as reported when it was created (needed for nodes named through shared cells)
+  let mut obsAbs : Array (Option Nat) := #[]
   for a in h.actions do
     let rec_ := tr[idx]?.getD {}
     let pre := if idx == 0 then ({} : ActionRec) else tr[idx - 1]?.getD {}
     match a with
+    | .observe _ =>
+      let noted := rec_.evs.findSome? fun e => match words e with
+        | ["note", "observe", _, n] => (n.drop 1).toString.toNat?
+        | _ => none
+      obsAbs := obsAbs.push noted
     | .stabilise =>
       let roots := (List.range sh.obs.size).filterMap fun o =>
-        if sh.inUse o then (sh.obs[o]?.bind fun x => sh.absOf x.1) else none
+        if sh.inUse o then
+          match obsAbs[o]?.join with
+          | some n => some n
+          | none => (sh.obs[o]?.bind fun x => sh.absOf x.1)
+        else none
       let cPre := cone pre.snaps roots
       let cPost := cone rec_.snaps roots
       let is := (invs rec_).filter (isUserFn ·.1)
@@ -1382,7 +1393,13 @@ def wellFormedDyn (h : History) : Verdict :=
         | _ => none
       match missing with
       | some m => (rs, some m)
-      | none => ((traceAction env i a rs).1, none)) (init, none)
+      | none =>
+        let (rs', lines) := traceAction env i a rs
+        -- a node built inside a bind closure and handed out through a shared cell may only be made necessary while
+        -- that bind is needed: the crate refuses otherwise with its own diagnostic (misuse, like a cycle)
+        if lines.any (fun l => l.endsWith "api panic bind-not-necessary") then
+          (rs', some s!"action {i}: a node of a bind that is not needed is made necessary (bind-not-necessary)")
+        else (rs', none)) (init, none)
   bad
 
 def hasScopedVar (h : History) : Bool :=
@@ -1395,7 +1412,14 @@ def evalProp (prop : String) (h : History) (tr : ImplTrace) : Verdict :=
     | some r => some r
     | none =>
       let hasDrop := h.defs.fns.any fun (_, d) => d.effects.any fun e => match e with | .dropVar _ => true | _ => false
-      if hasScopedVar h || hasDrop then wellFormedDyn h else none
+      let usesCells := h.actions.any fun a => match a with
+        | .observe (.slot _) => true
+        | _ => false
+      let cellEffects := h.defs.fns.any fun (_, d) => d.effects.any fun e => match e with
+        | .xSel _ _ _ ts => ts.any fun t => match t with | .slot _ => true | _ => false
+        | .xAdd _ (.slot _) _ => true
+        | _ => false
+      if hasScopedVar h || hasDrop || usesCells || cellEffects then wellFormedDyn h else none
   | "C01" => holdsC01 h tr
   | "C02" => holdsC02 h tr
   | "C03" => holdsC03 h tr
